@@ -39,7 +39,11 @@ pub struct FindManyNodesContext {
 
 impl FindManyNodesContext {
     /// Creates a new [`FindManyNodesContext`].
-    pub fn new(query: QueryId, peers_to_report: Vec<KademliaPeer>) -> Self {
+    pub fn new(query: QueryId, mut peers_to_report: Vec<KademliaPeer>) -> Self {
+        // Report (and thus contact) every peer only once.
+        let mut seen = std::collections::HashSet::new();
+        peers_to_report.retain(|peer| seen.insert(peer.peer));
+
         Self {
             query,
             peers_to_report,
